@@ -45,6 +45,12 @@ def backtick(state: StateInline, silent: bool) -> bool:
 
         closerLength = matchEnd - matchStart
 
+        # Put every backtick string seen in the cache, as upper limit of where a closer
+        # of that length can be found: also the one that matches (the text is scanned
+        # again when it turns out to be link text), and never move a limit backwards
+        if matchStart > state.backticks.get(closerLength, 0):
+            state.backticks[closerLength] = matchStart
+
         if closerLength == openerLength:
             # Found matching closer length.
             if not silent:
@@ -59,9 +65,6 @@ def backtick(state: StateInline, silent: bool) -> bool:
                     token.content = token.content[1:-1]
             state.pos = matchEnd
             return True
-
-        # Some different length found, put it in cache as upper limit of where closer can be found
-        state.backticks[closerLength] = matchStart
 
     # Scanned through the end, didn't find anything
     state.backticksScanned = True
